@@ -178,19 +178,22 @@ def c_table(ctx):
     return cL([cP(cP(cN(t), cO(None if cc is None else cN(cc))), cN(h)) for t, cc, h in ctx.table()])
 
 
-SLICEAWARE = False     # which getObjects the implementation under test follows; set by the checks from the witness scenario
-REV0OK = False         # which "slow cache" test the implementation follows; likewise
-
-
 def c_slices(sc):
     return cL([cP(cN(s["name"]), cL([pl.c_pobj(o) for o in s["objects"]])) for s in sc.get("slices", [])])
 
 
 def c_case(ctx, sc, obs):
-    return "(Build_dcase %s %s %s %s %s %s %s)" % (
-        c_table(ctx), c_slices(sc), cB(SLICEAWARE), cB(REV0OK), c_world(ctx, sc["dep"], sc["sets"], sc["store"], sc["next_rv"], sc["next_uid"]),
-        cL([c_step(ctx, s) for s in sc["steps"]]),
-        cL([c_sobs(ctx, s, o) for s, o in zip(sc["steps"], obs["steps"])]))
+    """The last step may be an unmodelled handover race (op "race"): it goes into dc_race and is judged by the monitors only."""
+    steps, sobs = list(sc["steps"]), list(obs["steps"])
+    race = "None"
+    if steps and steps[-1]["op"] == "race":
+        st, so = steps.pop(), sobs.pop()
+        race = "(Some %s)" % cP(nm(st["name"]), c_sobs(ctx, {"op": "set"}, so))
+    if any(s["op"] == "race" for s in steps):
+        raise pl.Unrepresentable("a race step must be the last step")
+    return "(Build_dcase %s %s %s %s %s %s)" % (
+        c_table(ctx), c_slices(sc), c_world(ctx, sc["dep"], sc["sets"], sc["store"], sc["next_rv"], sc["next_uid"]),
+        cL([c_step(ctx, s) for s in steps]), cL([c_sobs(ctx, s, o) for s, o in zip(steps, sobs)]), race)
 
 
 def scenario(ctx, dep, sets, steps, store=None, next_rv=50, next_uid=60):
